@@ -28,6 +28,7 @@ type sDesc struct {
 	Custom  bool
 	Foreign bool // emitted as TLeaf in Coq (custom Unmarshal with a fall-back schema); harness still descends
 	HasVal  bool // T or *T has a Validate() error method
+	RemGuard bool // has a `,remain` field that is NOT a map: confmap's remainNotMapHookFunc rejects unknown keys
 	rt      reflect.Type
 }
 
@@ -46,6 +47,7 @@ var (
 	sDuration  = "time.Duration"
 	sCustomSet = map[string]bool{}
 	sArrays    = map[string]bool{}
+	sRemLevels = map[string]*sDesc{}
 )
 
 // types whose custom Unmarshal retries with an older schema when the strict decode fails: their
@@ -127,13 +129,27 @@ func sDescribe(t reflect.Type, stack []reflect.Type) *sDesc {
 				}
 			}
 			if remain {
-				d.Rem = true
+				if f.Type.Kind() == reflect.Map {
+					d.Rem = true
+				} else {
+					d.RemGuard = true // guarded by confmap (fix 2d582bf11): behaves as a level without remain
+				}
 				continue
 			}
 			if key == "" {
 				key = f.Name
 			}
 			d.Fields = append(d.Fields, sField{Key: key, Squash: squash, Omit: omit, GoName: f.Name, Index: i, T: sDescribe(f.Type, st)})
+		}
+		if d.RemGuard {
+			for _, f := range d.Fields {
+				if f.Squash {
+					d.RemGuard = false // the guard leaves structs with squashed members to mapstructure
+				}
+			}
+			if d.RemGuard {
+				sRemLevels[t.String()] = d
+			}
 		}
 		return d
 	}
@@ -257,6 +273,24 @@ func sCoqFile(es []sEntry) string {
 		as = append(as, a)
 	}
 	sort.Strings(as)
+	var rl []string
+	for k := range sRemLevels {
+		rl = append(rl, k)
+	}
+	sort.Strings(rl)
+	b.WriteString("\n(* struct levels (anywhere below the descriptors, the telemetry subtree included) whose `,remain` field is\n   not a map: confmap's remainNotMapHookFunc makes them reject unknown keys; own keys only, children opaque *)\n")
+	b.WriteString("Definition remain_levels : list (string * tdesc) := [")
+	for i, k := range rl {
+		if i > 0 {
+			b.WriteString(";")
+		}
+		var fs []string
+		for _, f := range sRemLevels[k].Fields {
+			fs = append(fs, "("+sCoqStr(f.Key)+", false, TLeaf)")
+		}
+		b.WriteString("\n  (" + sCoqStr("remain-level/"+k) + ", TStruct false [" + strings.Join(fs, "; ") + "])")
+	}
+	b.WriteString("\n].\n")
 	b.WriteString("\n(* array types below the descriptors (the encoder passes arrays through without encoding their elements) *)\n")
 	b.WriteString("Definition array_types : list string := [")
 	for i, a := range as {
